@@ -5,6 +5,7 @@ package geom
 func init() {
 	vfHarnesses["C13_hull_3"] = vfhC13Hull3
 	vfHarnesses["C13_hull_4"] = vfhC13Hull4
+	vfHarnesses["C13_hull_4_sorted"] = vfhC13Hull4Sorted
 }
 
 func vfMultiPointXY(pts ...XY) MultiPoint {
@@ -99,5 +100,15 @@ func vfhC13Hull4() {
 	vfCheckHull(h, pts)
 	h2 := vfMultiPointXY(d, c, b, a).ConvexHull()
 	vfAssert(ExactEquals(h2, h), "independent of order")
+	vfReach("end")
+}
+
+// Hull of 4 lattice points given in non-decreasing X order (every 4-point set
+// can be labelled that way; independence of the order is C13_hull_3/4).
+func vfhC13Hull4Sorted() {
+	a, b, c, d := vfPt("a"), vfPt("b"), vfPt("c"), vfPt("d")
+	vfAssume(vfAnd(a.X <= b.X, vfAnd(b.X <= c.X, c.X <= d.X)))
+	h := vfMultiPointXY(a, b, c, d).ConvexHull()
+	vfCheckHull(h, []XY{a, b, c, d})
 	vfReach("end")
 }
